@@ -621,7 +621,8 @@ def fallback_rule(run, f, rid):
                     why.append("after a local miss the function can return without popping the shared queue (and without a successful steal)")
             if steals_ok and not any(x in lp and pth.index(x) > steals_ok[-1] for x in pops):
                 why.append("a successful steal is not followed by a local pop")
-            took = [i for i, x in enumerate(pth) if x in lock_take and oc.get(x) == "ok"]
+            # the lock is held unless the path shows the attempt FAILED (a result nobody inspects may have been a success)
+            took = [i for i, x in enumerate(pth) if x in lock_take and oc.get(x) != "err"]
             if took and not any(i > took[-1] for i, x in enumerate(pth) if x in lock_rel):
                 why.append("the steal lock is not released on every path (later pops would never steal again)")
         if not why:
